@@ -56,6 +56,7 @@ OPTIONS = {
     "no_unidecode": (["--no-unidecode"], {"unicode": False}),
     "disable_float": (["--disable-str-serializable-types", "float"], {"disable": ["float"]}),
     "disable_int_bool": (["--disable-str-serializable-types", "int", "BooleanString"], {"disable": ["int", "BooleanString"]}),
+    "disable_date_time": (["--disable-str-serializable-types", "date", "IsoTimeString"], {"disable": ["date", "IsoTimeString"]}),
     "preamble": (["--preamble", "  X = 1  # preamble text  "], {"preamble": "  X = 1  # preamble text  "}),
     "f_attrs_meta": (["-f", "attrs", "--code-generator-kwargs", "meta=true"], {"fw": "attrs", "extra": {"meta": True}}),
     # the stock generators named by import path: every dedicated option still has to reach them
